@@ -12,6 +12,7 @@ mod mapdrv;
 mod primscmd;
 mod scen;
 mod setdrv;
+mod splitcmd;
 mod tabledrv;
 mod trace;
 
@@ -64,6 +65,7 @@ fn main() {
         "replay" => scen::replay(&out, seed, &rest),
         "layout" => layoutcmd::run(&out, seed, &rest),
         "prims" => primscmd::run(&out, seed, &rest),
+        "split" => splitcmd::run(&out, seed, &rest),
         "width" => {
             println!("{}", hashbrown::verif::GROUP_WIDTH);
             0
